@@ -197,6 +197,23 @@ def stepBug (s : State) : Line → State
 
 def runBug (file : List Line) : State := file.foldl stepBug init
 
+/-! #### `Atoms.append` behind an equality guard (`if atom in self.all_atoms: return`) — not the code; used for the
+    witness theorem `eq_guard_fails_on` (ShelxProps/C03.lean). `Atom.__eq__` compares the printed lines: name and
+    position (`tag`), scattering-factor number, occupation code, U values — not the PART / AFIX / residue the atom
+    stands in. Atom names are unique only within a residue / PART, so two lines of a valid file may agree in all of it. -/
+
+def sameText (a b : AtomRec) : Bool :=
+  decide (a.tag = b.tag) && decide (a.sfac = b.sfac) && decide (a.sof = b.sof) && decide (a.uvals = b.uvals)
+
+def stepGuard (s : State) : Line → State
+  | .atom a =>
+    if optTruthy cmdTruthy s.frag then s
+    else if s.atoms.any (sameText (mkAtom s a)) then s
+    else { s with atoms := s.atoms ++ [mkAtom s a] }
+  | l => step s l
+
+def runGuard (file : List Line) : State := file.foldl stepGuard init
+
 /-! ### observation (after parsing finished) -/
 
 structure AtomObs where
